@@ -104,7 +104,7 @@ theorem commonValidation0_ok {s : St} {e : Bool} {tx : TxIn} (h : commonValidati
   simp [he] at hs
   exact hs
 
-theorem validateTrx_ok {s s1 : St} {e : Bool} {ht : Int} {tx : TxIn} {sender rc : Account}
+theorem validateTrx_ok_core {s s1 : St} {e : Bool} {ht : Int} {tx : TxIn} {sender rc : Account}
     (h : validateTrx s e ht tx sender rc = .ok s1) :
     s1.core = s.core ∧ byteLen tx.from_ = 20 ∧ byteLen tx.to = 20 ∧ (e = true → tx.sigOk = true) := by
   unfold validateTrx at h
@@ -402,7 +402,7 @@ theorem handleTx_false_core (s : St) (ht : Int) (tx : TxIn) : (handleTx s false 
     · rename_i h; simp
     · simp
     · rename_i s1 hv
-      have h1 := (validateTrx_ok hv).1
+      have h1 := (validateTrx_ok_core hv).1
       split
       · simp [h1]
       · simp [h1]
@@ -440,7 +440,7 @@ theorem handleTx_core (s : St) (ht : Int) (tx : TxIn) :
     · left; simp
     · left; simp
     · rename_i s1 hv
-      obtain ⟨h1, _, hto, hsig⟩ := validateTrx_ok hv
+      obtain ⟨h1, _, hto, hsig⟩ := validateTrx_ok_core hv
       have hsig := hsig rfl
       simp only [core_findOrNewAcct] at h1
       split
